@@ -14,7 +14,7 @@ LEVEL = "exploration"
 PLAN = {"quick": {"cases": 640, "shards": 16, "timeout": 900},
         "thorough": {"cases": 12000, "shards": 32, "timeout": 7200}}
 RULE = ("families of 10-30 objects: a base expression, fresh rebuilds (tree and DAG), int/float re-spellings (2 <-> 2.0, n = 3 <-> 3.0, "
-        "base omitted <-> e), single mutations (n +- 1, other base/name/value, arguments swapped, dropped, added, constructor replaced by its "
+        "base omitted <-> e; a quarter of the expression families over constants beyond 2**53 where the spellings stop agreeing), single mutations (n +- 1, other base/name/value, arguments swapped, dropped, added, constructor replaced by its "
         "sibling, at the root and deep inside), the same for Points (permuted coordinate order, one value/name changed, one coordinate "
         "added/dropped) and for Derivative/Partial/Differential/LocatedDifferential (early and late) built on them, plus foreign objects. "
         "Checked on all ordered pairs: == equals the spec-level oracle, != is its negation, symmetry, no exception; on all triples "
@@ -45,6 +45,9 @@ def make_case(rng, tier):
     r = rng.random()
     if r < 0.5:
         t = G.rand_tree(rng, G.rand_size(rng, 1, 14)); kind = "expr"
+        if rng.random() < 0.25:
+            # constants beyond 2**53, where int and float spellings stop being interchangeable
+            t = G.rand_tree(rng, G.rand_size(rng, 1, 8), G.Cfg(consts=G.BIG_INTS + [1, 2.0, -0.5], p_var=0.4))
     elif r < 0.7:
         t = G.rule_case(rng); kind = "expr"
     elif r < 0.85:
@@ -75,7 +78,7 @@ def expr_family(rng, t):
 
 def point_family(rng):
     names = rng.sample(["x", "y", "z", "w", "self", "x1"], rng.randint(0, 4))
-    base = {n: rng.choice([1, 2.0, -0.5, 0, 3, 1.5]) for n in names}
+    base = {n: rng.choice([1, 2.0, -0.5, 0, 3, 1.5, 2 ** 53, 2 ** 53 + 1, 9007199254740992.0, 10 ** 17 + 3]) for n in names}
     fam = [("base", dict(base)), ("rebuild", dict(base))]
     items = list(base.items())
     for i in range(3):
